@@ -63,3 +63,55 @@ Theorem C02_climb_iff_grammar : forall (atom op: Type) (prec: op -> nat) a0 l t,
   (exists fuel, climb atom op prec fuel 0 (Leaf atom op a0) l = Some (t, [])) <-> D atom op prec 0 (Leaf atom op a0) l t.
 Proof. exact climb_iff_grammar. Qed.
 Print Assumptions C02_climb_iff_grammar.
+
+(* the upper rungs of the expression ladder on the whole-parser model (every token stream, state, fuel) *)
+From PV Require Import ExprShape.
+(* ?: is right-associative, with a full comma expression between ? and : *)
+Theorem C02_conditional_right_assoc : forall (P: Type) f (s s': pstate P) r,
+  p_conditional_expression P (S f) s = Ok (r, s') ->
+  exists lhs0 s1 e s2 q s3,
+    p_cast_expression P f s = Ok (lhs0, s1) /\ p_binary_climb P f 0 lhs0 s1 = Ok (e, s2) /\
+    accept P K_CONDOP s2 = Ok (q, s3) /\
+    match q with
+    | None => r = e /\ s' = s3
+    | Some _ => exists iftrue s4 c s5 iffalse ec,
+        p_expression P f s3 = Ok (iftrue, s4) /\ expect P K_COLON s4 = Ok (c, s5) /\
+        p_conditional_expression P f s5 = Ok (iffalse, s') /\
+        get_coord P e = Some ec /\ r = mkN P C_TernaryOp [e; iftrue; iffalse] ec
+    end.
+Proof. exact conditional_right_assoc. Qed.
+Print Assumptions C02_conditional_right_assoc.
+
+(* assignment is right-associative *)
+Theorem C02_assignment_right_assoc : forall (P: Type) f (s s': pstate P) r,
+  p_assignment_expression P (S f) s = Ok (r, s') ->
+  (exists e s1 t s2, p_conditional_expression P f s1 = Ok (e, s2) /\ peek P s2 = Ok (t, s') /\ r = e /\
+                     match t with Some t' => kind_in (tk t') tbl_ASSIGNMENT_OPS = false | None => True end)
+  \/ (exists e s1 s2 t' s3 op s4 rhs ec,
+        p_conditional_expression P f s1 = Ok (e, s2) /\ peek P s2 = Ok (Some t', s3) /\
+        kind_in (tk t') tbl_ASSIGNMENT_OPS = true /\ advance P s3 = Ok (op, s4) /\
+        p_assignment_expression P f s4 = Ok (rhs, s') /\ get_coord P e = Some ec /\
+        r = mkN P C_Assignment [VStr (tv op); e; rhs] ec)
+  \/ (exists comp s1 s2 x, p_compound_statement P f s1 = Ok (comp, s2) /\ expect P K_RPAREN s2 = Ok (x, s') /\ r = comp).
+Proof. exact assignment_right_assoc. Qed.
+Print Assumptions C02_assignment_right_assoc.
+
+(* a comma expression is one flat list in source order; a single operand is returned as it is *)
+Theorem C02_comma_expression_flat : forall (P: Type) f (s s': pstate P) r,
+  p_expression P (S f) s = Ok (r, s') ->
+  exists e s1 c s2, p_assignment_expression P f s = Ok (e, s1) /\ accept P K_COMMA s1 = Ok (c, s2) /\
+    match c with
+    | None => r = e /\ s' = s2
+    | Some _ => exists e2 s3 rest ec, p_assignment_expression P f s2 = Ok (e2, s3) /\ CommaRun P s3 rest s' /\
+                                     get_coord P e = Some ec /\ r = mkN P C_ExprList [VList (e :: e2 :: rest)] ec
+    end.
+Proof. exact comma_expression_flat. Qed.
+Print Assumptions C02_comma_expression_flat.
+
+(* parentheses influence grouping only: ( expression ) returns the node of the inner expression unchanged *)
+Theorem C02_parentheses_only_group : forall (P: Type) f (s s1 s': pstate P) k r,
+  p_primary_expression P (S f) s = Ok (r, s') ->
+  peek_kind P s = Ok (k, s1) -> okind_is k K_LPAREN = true ->
+  exists x s2 s3 y, advance P s1 = Ok (x, s2) /\ p_expression P f s2 = Ok (r, s3) /\ expect P K_RPAREN s3 = Ok (y, s').
+Proof. exact parentheses_only_group. Qed.
+Print Assumptions C02_parentheses_only_group.
